@@ -430,6 +430,11 @@ func (m *Manager) FlushMemTables() error {
 	m.flushMu.Lock()
 	defer m.flushMu.Unlock()
 
+	// Nothing is flushed once the manager is closed (Close waits for a running flush)
+	if m.closed.Load() {
+		return ErrStorageClosed
+	}
+
 	// Track operation
 	m.stats.TrackOperation(stats.OpFlush)
 
@@ -647,6 +652,14 @@ func (m *Manager) Close() error {
 	if m.closed.Swap(true) {
 		return nil // Already closed
 	}
+
+	// Wait for a flush that is still running (the background goroutine may be writing an
+	// SSTable and will publish it in m.sstables) and keep readers and writers out while
+	// the log and the tables are closed. Lock order as in FlushMemTables: flushMu, then mu.
+	m.flushMu.Lock()
+	defer m.flushMu.Unlock()
+	m.mu.Lock()
+	defer m.mu.Unlock()
 
 	// Close the WAL using atomic access
 	currentWAL := m.getWAL()
